@@ -712,8 +712,12 @@ func parseContractText(pkg, fname, text string) (*ContractFile, error) {
 			ctxs, errq := strconv.Unquote(rest2[:end+1])
 			expr := strings.TrimSpace(rest2[end+1:])
 			e, erre := parseSpecExpr(expr)
-			if errq != nil || erre != nil || strings.Count(ctxs, "%s") != 1 {
-				return nil, fmt.Errorf("%s: bad callverb clause (the context must contain exactly one %%s)", where)
+			// the verb of interest is written %* when the context holds several verbs; a single %s stands for it otherwise
+			if strings.Count(ctxs, "%*") == 0 && strings.Count(ctxs, "%s") == 1 {
+				ctxs = strings.Replace(ctxs, "%s", "%*", 1)
+			}
+			if errq != nil || erre != nil || strings.Count(ctxs, "%*") != 1 {
+				return nil, fmt.Errorf("%s: bad callverb clause (the context must contain exactly one %%* or exactly one %%s)", where)
 			}
 			cur.CallVerbs = append(cur.CallVerbs, &CallVerbClause{Callee: tgt, Context: ctxs, Text: expr, Expr: e})
 		case "ghostset":
